@@ -36,10 +36,25 @@ def run_mutant(m: dict, runs: int | None = None) -> dict:
                            capture_output=True, text=True, timeout=900)
         sigs = [ln.strip()[len('signature: '):] for ln in
                 q.stdout.splitlines() if ln.strip().startswith('signature:')]
+        # the replay file of the first violation must reproduce it exactly
+        # (same signature, same trace digest) in a fresh process
+        replay = None
+        for ln in q.stdout.splitlines():
+            if ln.startswith('VIOLATION ') and 'replay=' in ln:
+                path = ln.split('replay=', 1)[1].strip()
+                rp = subprocess.run([os.path.join(VERIF, 'check'), 'replay',
+                                     os.path.join(VERIF, path)], env=env,
+                                    capture_output=True, text=True,
+                                    timeout=900)
+                replay = ('exact' if 'reproduced exactly' in rp.stdout
+                          else 'same-signature' if rp.returncode == 1
+                          else f'not-reproduced rc={rp.returncode}')
+                break
         return {'name': m['name'], 'property': m['property'],
                 'exit': q.returncode, 'detected': q.returncode == 1,
                 'seconds': round(time.time() - t0, 1),
-                'signatures': sigs[:6], 'note': m['note']}
+                'signatures': sigs[:6], 'replay': replay,
+                'note': m['note']}
     finally:
         shutil.rmtree(tmp, ignore_errors=True)
 
@@ -61,9 +76,10 @@ def main(only: str | None = None) -> int:
             continue
         print(f"sensitivity {r['name']} [{m['property']}]: "
               f"{'DETECTED' if ok else 'MISSED ' + str(r.get('status', r.get('exit')))}"
-              f" in {r.get('seconds')}s {r.get('signatures', [])[:2]}",
+              f" in {r.get('seconds')}s replay={r.get('replay')} "
+              f"{r.get('signatures', [])[:2]}",
               flush=True)
-        if not ok:
+        if not ok or r.get('replay') != 'exact':
             rc = 1
     with open(os.path.join(VERIF, 'selftest', 'sensitivity_last.json'),
               'w') as f:
